@@ -271,3 +271,54 @@ func VH02f_dialer_takeover() {
 	verif.Reach("took-over")
 	sock.Close()
 }
+
+// VH02g_concurrent: two application goroutines send concurrently; every
+// schedule with at most k preemptions: each message arrives exactly once,
+// unchanged, and in each sender's own order.
+func VH02g_concurrent() {
+	protos := []string{"pair", "xpair", "push", "xpush", "pair1"}
+	proto := protos[verif.Choice("proto", len(protos))]
+	lab := "C02/" + proto + "/concurrent"
+	sock := vp.New(proto)
+	wq := verif.Choice("wqlen", 2) + 1
+	verif.Assert(sock.SetOption(mangos.OptionWriteQLen, wq) == nil, lab+"/set-wqlen")
+	side := vt.Listen(sock, "a")
+	peer := side.Peer("p")
+	N := verif.Param("N", 2)
+	mkSender := func(tag byte) func() {
+		return func() {
+			for i := 0; i < N; i++ {
+				if sendOne(sock, proto, []byte{tag, byte('0' + i)}) != nil {
+					verif.Fail(lab + "/send-error")
+				}
+			}
+		}
+	}
+	ga := verif.Go("A", mkSender('A'))
+	gb := verif.Go("B", mkSender('B'))
+	verif.Quiesce()
+	verif.Assert(ga.Done() && gb.Done(), lab+"/sender-blocked-although-peer-takes-messages")
+	hl := hdrLen(proto)
+	nextA, nextB := 0, 0
+	for _, r := range peer.Sent {
+		w := r.Bytes()
+		if len(w) != hl+2 {
+			verif.Fail(lab + "/wire-length")
+			continue
+		}
+		b := w[hl:]
+		switch b[0] {
+		case 'A':
+			verif.Assert(int(b[1]-'0') == nextA, lab+"/reordered-or-duplicated-within-a-sender")
+			nextA++
+		case 'B':
+			verif.Assert(int(b[1]-'0') == nextB, lab+"/reordered-or-duplicated-within-a-sender")
+			nextB++
+		default:
+			verif.Fail(lab + "/invented-message")
+		}
+	}
+	verif.Assert(nextA == N && nextB == N, lab+"/message-lost")
+	verif.Reach("concurrent-checked")
+	sock.Close()
+}
